@@ -125,6 +125,7 @@ var mustCheck = []string{
 var errExceptions = map[string]string{
 	fRep + "revertDisk | " + fRep + "encodeToFile":          "rollback attempt on a path that already returns the original error",
 	fSrv + "initUUID | " + fRep + "writeVolumeMetaData":     "failure leaves the previous volume.meta intact (tmp+rename); the UUID is regenerated on the next Create (DESIGN.md F13)",
+	fSrv + "initUUID | " + fRep + "encodeToFile":            "the same write of volume.meta with the helper written out in place (see the entry above)",
 	fSrv + "isExtentSupported$1 | os.Remove":                "removal of the scratch probe file tmpFile.tmp (not part of the replica's state)",
 	fSrv + "Reload | " + fRep + "Close":                     "old in-memory instance, superseded by the reloaded one",
 	"(*replica.Server).Create | (*replica.Server).initUUID": "deferred; see initUUID",
